@@ -3,11 +3,13 @@
 //! behaviours enumerated by TLC against the real code (spec -> impl) or records traces of the real code
 //! for validation against the TLA+ specification (impl -> spec).
 
+mod api;
 mod events;
 mod gen;
 mod merge;
 mod parse;
 mod proj;
+mod render;
 mod rewrite;
 mod run;
 mod util;
@@ -30,8 +32,10 @@ fn main() {
         "parser-replay" => parse::replay(&args),
         "schema-record" => parse::record_schema(&args),
         "docs-trace" => parse::docs_trace(&args),
+        "api-replay" => api::replay(&args),
         "c11-rewrite" => rewrite::c11(&args),
         "c06-algebra" => rewrite::c06(&args),
+        "c05-repeat" => rewrite::c05(&args),
         "pair-compare" => rewrite::pair_compare(&args),
         other => {
             eprintln!("unknown sub-command {}", other);
